@@ -219,3 +219,12 @@ def crash_signature(r):
     else:
         sym = "other:%s" % kind
     return "%s|crash|%s" % (where, sym)
+
+
+def rolled_back_update(raw, idx, store):
+    """True when, before event idx, a transaction that successfully updated / upserted items of `store` ended with
+    Rollback (used to recognise the consequences of finding C20-K3: such a rollback destroys committed values on
+    stores with actively persisted values)."""
+    rb = {e.get("t") for e in raw[:idx] if e.get("ev") == "Rollback"}
+    return any(e.get("ev") == "Op" and e.get("t") in rb and e.get("s") == store and e.get("ok") and e.get("op") in ("Update", "Upsert")
+               for e in raw[:idx])
